@@ -1,6 +1,7 @@
 package document
 
 import "github.com/gmrtd/gmrtd/document/iso19794"
+	"github.com/gmrtd/gmrtd/document/iso39794"
 
 // C19 — parsed attributes are exactly what the hashed bytes encode.
 // Oracle by construction: each file is BUILT from symbolic leaves with a trivial encoder over a
@@ -130,15 +131,28 @@ func verifStubISO19794(data []byte) (*iso19794.ISO19794, error) {
 	return &out, nil
 }
 
+// the ISO 39794-5 record parser, likewise: one representation whose data is the data block
+func verifStubISO39794(data []byte) (*iso39794.ISO39794_5_AP, error) {
+	var out iso39794.ISO39794_5_AP
+	out.FaceImageDataBlock.RepresentationBlocks = make([]iso39794.RepresentationBlockType, 1)
+	out.FaceImageDataBlock.RepresentationBlocks[0].ImageRepresentation.Base.ImageRepresentation2DBlock.RepresentationData2D = append([]byte(nil), data...)
+	return &out, nil
+}
+
 func verifH_C19_dg2() {
 	k := verifParam("K")
+	fmts := verifParam("fmt") // bit i: template i is an ISO 39794-5 record (7F2E) instead of ISO 19794 (5F2E)
 	var blocks [][]byte
 	group := verifE(0x02, []byte{byte(k)})
 	for i := 0; i < k; i++ {
 		bdb := verifBytes(3)
 		blocks = append(blocks, bdb)
 		bht := verifE(0xA1, append(verifE(0x87, []byte{0x01, 0x01}), verifE(0x88, []byte{0x00, 0x08})...))
-		group = append(group, verifE(0x7F60, append(bht, verifE(0x5F2E, bdb)...))...)
+		tag := 0x5F2E
+		if fmts>>uint(i)&1 == 1 {
+			tag = 0x7F2E
+		}
+		group = append(group, verifE(0x7F60, append(bht, verifE(tag, bdb)...))...)
 	}
 	in := verifE(0x75, verifE(0x7F61, group))
 	dg, err := NewDG2(in)
@@ -243,4 +257,53 @@ func verifH_C19_wrongtag() {
 	}
 	verifReach("called")
 	verifAssert(err != nil && isNil, "a file of another data group is rejected")
+}
+
+// verifH_C19_summary: taking the identity summary neither alters the parsed views nor drops or
+// reorders what they hold: persons to notify (names, telephone, every address component incl.
+// empty ones), DG11 address/telephone, DG7 and DG2 images.
+func verifH_C19_summary() {
+	k := verifParam("K")
+	doc := &Document{}
+	var addr [][]string
+	dg16 := &DG16{}
+	for i := 0; i < k; i++ {
+		var a []string
+		for j := 0; j < 3; j++ {
+			a = append(a, string(verifBytes(1)[:verifInt(0, 1)])) // each component empty or one character
+		}
+		addr = append(addr, append([]string(nil), a...))
+		dg16.PersonsToNotify = append(dg16.PersonsToNotify, PersonToNotify{DateRecorded: "20200101", Telephone: string(verifBytes(2)), Address: a})
+	}
+	doc.Mf.Lds1.Dg16 = dg16
+	img := verifBytes(3)
+	doc.Mf.Lds1.Dg7 = &DG7{Images: []DG7Image{{Image: img}}}
+	dg11 := &DG11{}
+	dg11.Details.Telephone = string(verifBytes(2))
+	dg11.Details.Address = []string{string(verifBytes(1)), string(verifBytes(1))}
+	doc.Mf.Lds1.Dg11 = dg11
+	tel0 := dg11.Details.Telephone
+	a0, a1 := dg11.Details.Address[0], dg11.Details.Address[1]
+
+	s := buildIdentityAttributes(doc)
+	verifReach("summary")
+	verifAssert(s != nil, "summary produced")
+	if s == nil {
+		return
+	}
+	verifAssert(len(doc.Mf.Lds1.Dg16.PersonsToNotify) == k, "DG16 view keeps its persons")
+	verifAssert(len(s.PersonsToNotify) == k, "summary lists every person to notify")
+	for i := 0; i < k && i < len(doc.Mf.Lds1.Dg16.PersonsToNotify); i++ {
+		v := doc.Mf.Lds1.Dg16.PersonsToNotify[i].Address
+		verifAssert(len(v) == 3, "DG16 view keeps every address component")
+		for j := 0; j < 3 && j < len(v); j++ {
+			verifAssert(v[j] == addr[i][j], "DG16 view unchanged by taking the summary")
+		}
+	}
+	verifAssert(s.Telephone == tel0 && dg11.Details.Telephone == tel0, "DG11 telephone")
+	verifAssert(len(s.Address) == 2 && len(dg11.Details.Address) == 2, "DG11 address components")
+	if len(s.Address) == 2 && len(dg11.Details.Address) == 2 {
+		verifAssert(s.Address[0] == a0 && s.Address[1] == a1 && dg11.Details.Address[0] == a0 && dg11.Details.Address[1] == a1, "DG11 address unchanged")
+	}
+	verifAssert(len(s.SignatureImages) == 1, "signature image listed")
 }
